@@ -96,7 +96,7 @@ class _Body:
 
 
 class FakeS3Store:
-    def __init__(self, clock: Optional[VClock] = None, page_size: int = 1000, etag_mode: str = "md5"):
+    def __init__(self, clock: Optional[VClock] = None, page_size: int = 5, etag_mode: str = "md5"):
         # etag_mode 'md5' = what S3 does for simple PUTs: the ETag is the MD5 of the content, so rewriting
         # identical bytes does NOT change it; 'unique' = a fresh ETag on every write (some S3-compatible stores)
         self.etag_mode = etag_mode
